@@ -18,7 +18,9 @@ Definition no_aliasing_members : bool := match gen_aliasing_members with [] => t
    through an out-parameter (GetHeader sets *payloadPtr first thing) before it is read. *)
 Definition alloc_allowed (a : string * string * string * string) : bool :=
   let '(fn, kind, name, _) := a in
-  String.eqb fn "TECMP::Decoder::Decode" && String.eqb kind "UninitLocal" && String.eqb name "payloadPtr".
+  (String.eqb fn "TECMP::Decoder::Decode" && String.eqb kind "UninitLocal" && String.eqb name "payloadPtr") ||
+  (* a scalar local whose declaration is immediately followed by memcpy(&x, src, sizeof x): every byte assigned before any read *)
+  String.eqb kind "MemcpyInitLocal".
 Definition allocs_ok : bool := forallb alloc_allowed gen_allocs.
 Definition bad_allocs : list (string * string * string * string) := filter (fun a => negb (alloc_allowed a)) gen_allocs.
 
